@@ -81,3 +81,43 @@ package redisemu
 //@ ensures released: !held && lockMode(ctx.dsc)
 //@ ensures all: output.data != nil && !istype(output.data, respErrorString) ==> dispatched == old(dispatched) + old(len(*ctx.cs.cmdQueue))
 //@ loop 1 invariant ctx.dsc.id != 0 && ctx.dsc.ds.multiLock == ctx.dsc.id && held && dispatched == old(dispatched) + ri1 && len(results) == ri1 && ctx.cs != nil && !ctx.cs.cmdQueueFailed
+
+// C09: what the dispatcher's prepare step does with the transaction state.
+// Every context built while the connection is inside MULTI carries the multi
+// flag (WATCH, blocking commands and CLIENT INFO consult it); a command that is
+// not a transaction-control command is appended to the queue and answered
+// QUEUED; a rejected command marks the transaction failed; nothing else of the
+// transaction state changes.
+//@ func cmdDispatcher.prepare
+//@ prop C09
+//@ safetyprop none
+//@ requires cd != nil && cs != nil && cs.ds != nil && cd.active != nil
+//@ modifies *
+//@ ensures [C09] multi.flag: ctx != nil ==> ctx.multi == (old(cs.cmdQueue) != nil)
+//@ ensures [C09] queue.kept: cs.cmdQueue == old(cs.cmdQueue)
+//@ ensures [C09] rejected.fails: ctx == nil && response != nil && old(cs.cmdQueue) != nil ==> cs.cmdQueueFailed
+//@ ensures [C09] accepted.keeps: ctx != nil ==> cs.cmdQueueFailed == old(cs.cmdQueueFailed)
+//@ ensures [C09] queued.reply: ctx != nil && old(cs.cmdQueue) != nil && response == rstrQueued ==> len(*cs.cmdQueue) == old(len(*cs.cmdQueue)) + 1 && (*cs.cmdQueue)[len(*cs.cmdQueue)-1] == ctx
+
+// WATCH is refused inside MULTI and changes nothing then
+//@ func fnWatch
+//@ prop C09
+//@ safetyprop none
+//@ requires ctxOK(ctx) && ctx.cs.watches != nil
+//@ requires [C08,C16] unlocked: !held && lockMode(ctx.dsc)
+//@ requires !mutated && !bumped && !removedKey
+//@ modifies *
+//@ ensures [C09] refused.in.multi: old(ctx.multi) ==> istype(output.data, respErrorString) && ctx.cs.watches == old(ctx.cs.watches) && ctx.cs.cmdQueue == old(ctx.cs.cmdQueue)
+//@ ensures [C09] queue.kept: ctx.cs.cmdQueue == old(ctx.cs.cmdQueue) && ctx.cs.cmdQueueFailed == old(ctx.cs.cmdQueueFailed)
+
+//@ func parseCommand
+//@ trusted the grammar-driven argument parser: builds a fresh argument table from the command definition and the input values; does not touch connection or store state
+//@ modifies alloc orderedMap commandArgParser map
+
+//@ func respArray.toValues
+//@ trusted copies the elements
+//@ pure
+
+//@ func respValue.String
+//@ trusted formats the value
+//@ pure
